@@ -1,9 +1,9 @@
 #!/bin/bash
 # run every check of one tier in sequence (used with `vp run`): ./harness/runall.sh thorough [seed]
-cd "$(dirname "$0")/.."
+cd "$(dirname "$0")/.."; mkdir -p out
 tier=${1:-quick}; seed=${2:-0}
 if [ -n "$VP_RUN_REPO" ]; then export DARR_REPO=$VP_RUN_REPO; fi
-./check --setup > out_setup.log 2>&1 || { echo "setup failed"; tail -20 out_setup.log; }
+./check --setup > out/setup.log 2>&1 || { echo "setup failed"; tail -20 out/setup.log; }
 for c in C01 C02 C03 C04 C05 C06 C07 C08 C09 C10 C11 C12 C13 C14 C15 C16 C17 C18 C19 C20; do
   /usr/bin/time -f "$c wall=%es maxrss=%MKB" ./check $c --tier $tier --seed $seed 2>&1 | grep -v "^WARNING" | tail -6
 done
